@@ -54,10 +54,42 @@ def backend_of(md):
     return "atlas" if mtype(md) == "add_atlas_event_collection_info" else ("cms_aod" if mtype(md) == "add_cms_aod_event_collection_info" else "cms_miniaod")
 
 
+def container_of_backend(t, md):
+    "the container object is of the declaring backend's own container classes (collection of elements / single object)"
+    return ((cls_is(t, "func_adl_xAOD.atlas.xaod.event_collections.atlas_xaod_event_collection_collection") if md["contains_collection"]
+             else cls_is(t, "func_adl_xAOD.atlas.xaod.event_collections.atlas_xaod_event_collection_container"))
+            if mtype(md) == "add_atlas_event_collection_info" else
+            (cls_is(t, "func_adl_xAOD.cms.aod.event_collections.cms_aod_event_collection_collection") if mtype(md) == "add_cms_aod_event_collection_info"
+             else cls_is(t, "func_adl_xAOD.cms.miniaod.event_collections.cms_miniaod_event_collection_collection")))
+
+
+def element_declared(t, md):
+    "elements are iterated with the declared element type"
+    return implies("element_type" in md and (md["contains_collection"] or mtype(md) != "add_atlas_event_collection_info"),
+                   field(t, "_element_type") != None and live(field(t, "_element_type")) and
+                   field(field(t, "_element_type"), "_type", "func_adl_xAOD.common.cpp_types.terminal") == md["element_type"] and
+                   field(field(t, "_element_type"), "_p_depth") ==
+                   (1 if mtype(md) == "add_atlas_event_collection_info" or ("element_pointer" in md and md["element_pointer"]) else 0))
+
+
 def collection_matches(s, md):
     return (isinstance(s, cls("func_adl_xAOD.common.event_collections.EventCollectionSpecification")) and s.backend_name == backend_of(md) and
             s.name == md["name"] and s.include_files == md["include_files"] and s.container_type != None and
             field(s.container_type, "_type", "func_adl_xAOD.common.cpp_types.terminal") == md["container_type"])
+
+
+def collection_detail(s, md):
+    return (isinstance(s, cls("func_adl_xAOD.common.event_collections.EventCollectionSpecification")) and s.container_type != None and
+            container_of_backend(s.container_type, md) and element_declared(s.container_type, md) and
+            s.libraries == (opt_list(md, "link_libraries") if mtype(md) == "add_atlas_event_collection_info" else []))
+
+
+def collection_keys_ok(md):
+    "a collection declaration only uses the documented keys, and says what its elements are exactly when it has elements"
+    return ((keys_within(md, ["metadata_type", "name", "include_files", "container_type", "element_type", "contains_collection", "link_libraries"])
+             if mtype(md) == "add_atlas_event_collection_info" else
+             keys_within(md, ["metadata_type", "name", "include_files", "container_type", "element_type", "contains_collection", "element_pointer"])) and
+            md["contains_collection"] == ("element_type" in md))
 
 
 def always_appends(md):
@@ -78,8 +110,11 @@ def matches(s, md):
 IntIntM = TMap(Int, Int)
 PM_INV = [
     ("I.all_known_so_far", "all(has(md_list[k], 'metadata_type') and known_type(md_list[k]) for k in range(0, _i))"),
+    ("I.collection_declarations_well_formed", "all(implies(is_collection_md(md_list[k]), collection_keys_ok(md_list[k])) for k in range(0, _i))"),
     ("Q1.every_spec_from_its_metadata", "all(0 <= g_src[q] and g_src[q] < _i and produces(md_list[g_src[q]]) and matches(cpp_funcs[q], md_list[g_src[q]]) "
                                         "for q in range(0, len(cpp_funcs)))"),
+    ("Q1c.collections_carry_their_declaration", "all(implies(is_collection_md(md_list[g_src[q]]), collection_detail(cpp_funcs[q], md_list[g_src[q]])) "
+                                                "for q in range(0, len(cpp_funcs)))"),
     ("Q2.in_metadata_order", "all(g_src[q - 1] < g_src[q] for q in range(1, len(cpp_funcs)))"),
     ("Q3.none_dropped", "all(implies(always_appends(md_list[k]), 0 <= g_pos[k] and g_pos[k] < len(cpp_funcs) and g_src[g_pos[k]] == k) for k in range(0, _i))"),
 ]
@@ -94,6 +129,9 @@ _PM_SHAPES = [
     ({"metadata_type": _S("inject_code")}, ["body_includes", "header_includes", "ctor_lines", "link_libraries", "bogus_key"], ["name"]),
     ({"metadata_type": _S("add_cpp_function")}, ["result_name", "return_is_collection", "method_object"], ["name", "include_files", "arguments", "code", "return_type"]),
     ({"metadata_type": _S("add_method_type_info"), "return_type": _S("int*")}, ["deref_count", "tree_type"], ["type_string", "method_name"]),
+    ({"metadata_type": _S("add_cms_aod_event_collection_info"), "contains_collection": {"t": "bool", "v": True}}, ["element_pointer"], ["name", "include_files", "container_type", "element_type"]),
+    ({"metadata_type": _S("add_cms_miniaod_event_collection_info"), "contains_collection": {"t": "bool", "v": True}, "element_pointer": {"t": "bool", "v": True}}, [], ["name", "include_files", "container_type", "element_type"]),
+    ({"metadata_type": _S("add_atlas_event_collection_info"), "contains_collection": {"t": "bool", "v": True}}, ["link_libraries"], ["name", "include_files", "container_type", "element_type"]),
     ({"metadata_type": _S("no_such_type")}, [], []),
     ({}, ["name"], []),
 ]
@@ -110,6 +148,9 @@ contract(MDQ + "process_metadata", props=["C09", "C14", "C15", "C10", "C11", "C0
          raises={"ValueError": "any(not has(md, 'metadata_type') or not known_type(md) for md in md_list)"},
          ensures=[("every_spec_from_its_metadata@C14,C15,C11,C06", "all(0 <= final_g_src[q] and final_g_src[q] < len(md_list) and produces(md_list[final_g_src[q]]) and "
                                                                    "matches(result[q], md_list[final_g_src[q]]) for q in range(0, len(result)))"),
+                  ("collections_carry_their_declaration@C06", "all(implies(is_collection_md(md_list[final_g_src[q]]), collection_detail(result[q], md_list[final_g_src[q]])) "
+                                                             "for q in range(0, len(result)))"),
+                  ("malformed_collection_declarations_refused@C06,C09", "all(implies(is_collection_md(md), collection_keys_ok(md)) for md in md_list)"),
                   ("in_metadata_order@C14,C15", "all(final_g_src[q - 1] < final_g_src[q] for q in range(1, len(result)))"),
                   ("none_dropped@C15,C11,C06,C09", "all(implies(always_appends(md_list[k]), 0 <= final_g_pos[k] and final_g_pos[k] < len(result) and "
                                                    "final_g_src[final_g_pos[k]] == k) for k in range(0, len(md_list)))")],
